@@ -36,11 +36,11 @@ def _rows_pc(dbp, dbc):
 
 
 def _ev_pc(d):
-    op, table, pk, fk = d
+    op, table, pk, fk, batch = d[:5]
     cols = []
     if table == "c" and (op == "INSERT" or fk != "-"):
         cols = [{"col": "pid", "val": "null" if fk in ("none", "-") else fk[1:]}]
-    return {"op": op, "t": table, "pk": pk[len(table):], "cols": cols}
+    return {"op": op, "t": table, "pk": pk[len(table):], "cols": cols, "batch": batch}
 
 
 def traces_from_walks(trace_dir, nullable, shape, start_id):
@@ -119,9 +119,12 @@ def main(chk):
     acts = oc.ALL_ACTS
     tdirs = {}
     configs = []
-    for name, casc, nullable, dd in (("default", "default", True, d), ("orphan", "orphan", True, d), ("all-notnull", "all", False, d - 1),
-                                     ("default-notnull", "default", False, d - 1), ("orphan-notnull", "orphan", False, d - 1)):
-        configs.append(dict(name=name, casc=casc, consts=oc.consts(casc, nc, dd, acts=acts, nullable=nullable), invs=["TypeOK", "FkSound"], maxlen=dd,
+    plan_ = (("default", "default", True, 2, 4), ("orphan", "orphan", True, 2, 4), ("all-notnull", "all", False, 2, 3),
+             ("default-notnull", "default", False, 2, 3), ("orphan-notnull", "orphan", False, 2, 3)) if q else \
+            (("default-2x3", "default", True, 3, 4), ("orphan-2x3", "orphan", True, 3, 4), ("default-2x2", "default", True, 2, 5),
+             ("all-notnull-2x3", "all", False, 3, 4), ("default-notnull-2x2", "default", False, 2, 4), ("orphan-notnull-2x2", "orphan", False, 2, 5))
+    for name, casc, nullable, n_, dd in plan_:
+        configs.append(dict(name=name, casc=casc, consts=oc.consts(casc, n_, dd, acts=acts, nullable=nullable), invs=["TypeOK", "FkSound"], maxlen=dd,
                             nrandom=100 if q else 1000))
         tdirs[name] = (os.path.join(chk.work, "flushtraces-" + name), nullable)
     st = oc.run_suite(chk, rng, configs, acts, nontrivial=lambda f, a, t: a["a"] in ("Flush", "CommitReload") and len(a["dml"]) > 1,
@@ -131,7 +134,7 @@ def main(chk):
         traces += traces_from_walks(tdir, nullable, "pc:" + name, len(traces) + 1)
     # 3. other shapes: generated flushes (self-referential tree, mutual FK cycle with post_update, many-to-many)
     from checks import ormgraph_shapes
-    gen, gstats = ormgraph_shapes.generate(chk, rng, 150 if q else 1500, len(traces) + 1)
+    gen, gstats = ormgraph_shapes.generate(chk, rng, 600 if q else 6000, len(traces) + 1)
     for g in gen:
         if g.get("violation"):
             chk.violation({"spec": "TraceUow", "action": "Flush", "shape": g["shape"], "kind": "flush-raised-" + g.get("exc", "?")}, g["violation"], g)
